@@ -456,16 +456,61 @@ theorem LowObj.run_spec (o : LowObj α) (hc : o.logLik = lowCompute o.tab o.maxS
     | siteLiks => exact absurd rfl h0
     | dSite _ => exact absurd rfl h0
     | d2Site _ => exact absurd rfl h0
-    | d1 var =>
-      -- a `d1` with a non-empty name raises (the name is stored, then NotImplementedException)
-      have hv : var ≠ "" := fun h => (hvar (.d1 var) (by simp)).1 (by rw [h])
-      have hb : (var != o.dVar) = true := by rw [hd0]; simp [hv]
-      simp only [LowObj.step, hb, if_true] at h0
-      exact absurd rfl h0
-    | d2 var =>
-      have hv : var ≠ "" := fun h => (hvar (.d2 var) (by simp)).2 (by rw [h])
-      have hb : (var != o.d2Var) = true := by rw [hd20]; simp [hv]
-      simp only [LowObj.step, hb, if_true] at h0
-      exact absurd rfl h0
+    | d1 var => exact absurd rfl h0
+    | d2 var => exact absurd rfl h0
+
+/-! every history of the low-memory class, raising calls included: they answer `exc` and change nothing -/
+
+/-- break points after an operation: a refused vector changes nothing -/
+def lowNextBps (T : Nat) (bps : List Nat) : Op α → List Nat
+  | .setBreaks b => if breaksOk T b then b else bps
+  | _ => bps
+
+/-- the answer of a fresh object, a refused `setBreakPoints` included -/
+def lowSpecAll (t : Tables α) (maxSize : Nat) (bps : List Nat) (op : Op α) : Ans α :=
+  match op with
+  | .setBreaks b => if breaksOk t.T b then .val (lowCompute t maxSize b) else .exc
+  | _ => lowSpec (nextTab t op) maxSize bps op
+
+def lowSpecRunAll (t : Tables α) (maxSize : Nat) (bps : List Nat) : List (Op α) → List (Ans α)
+  | [] => []
+  | op :: ops => lowSpecAll t maxSize bps op :: lowSpecRunAll (nextTab t op) maxSize (lowNextBps t.T bps op) ops
+
+theorem LowObj.step_all (o : LowObj α) (hc : o.logLik = lowCompute o.tab o.maxSize o.bps) (op : Op α) :
+    (o.step op).2 = lowSpecAll o.tab o.maxSize o.bps op
+      ∧ (o.step op).1.tab = nextTab o.tab op ∧ (o.step op).1.bps = lowNextBps o.tab.T o.bps op
+      ∧ (o.step op).1.maxSize = o.maxSize
+      ∧ (o.step op).1.logLik = lowCompute (o.step op).1.tab (o.step op).1.maxSize (o.step op).1.bps := by
+  cases op with
+  | setTables t => exact ⟨rfl, rfl, rfl, rfl, rfl⟩
+  | setBreaks b =>
+    by_cases hok : breaksOk o.tab.T b = true
+    · have hst : o.step (.setBreaks b) = ({ o with bps := b, logLik := lowCompute o.tab o.maxSize b }, .val (lowCompute o.tab o.maxSize b)) := by
+        simp only [LowObj.step, hok, Bool.not_true, Bool.false_eq_true, if_false]
+      rw [hst]
+      refine ⟨by simp only [lowSpecAll, hok, if_true], rfl, by simp only [lowNextBps, hok, if_true], rfl, rfl⟩
+    · have hok' : breaksOk o.tab.T b = false := by simpa using hok
+      have hst : o.step (.setBreaks b) = (o, .exc) := by simp only [LowObj.step, hok', Bool.not_false, if_true]
+      rw [hst]
+      refine ⟨by simp only [lowSpecAll, hok', Bool.false_eq_true, if_false], rfl, by simp only [lowNextBps, hok', Bool.false_eq_true, if_false], rfl, hc⟩
+  | logLik => exact ⟨by simp only [LowObj.step, lowSpecAll, lowSpec, nextTab]; rw [hc], rfl, rfl, rfl, hc⟩
+  | posterior => exact ⟨rfl, rfl, rfl, rfl, hc⟩
+  | posteriorInto _ _ => exact ⟨rfl, rfl, rfl, rfl, hc⟩
+  | posteriorSite _ => exact ⟨rfl, rfl, rfl, rfl, hc⟩
+  | siteLik _ => exact ⟨rfl, rfl, rfl, rfl, hc⟩
+  | siteLiks => exact ⟨rfl, rfl, rfl, rfl, hc⟩
+  | d1 _ => exact ⟨rfl, rfl, rfl, rfl, hc⟩
+  | d2 _ => exact ⟨rfl, rfl, rfl, rfl, hc⟩
+  | dSite _ => exact ⟨rfl, rfl, rfl, rfl, hc⟩
+  | d2Site _ => exact ⟨rfl, rfl, rfl, rfl, hc⟩
+
+theorem LowObj.run_spec_all (o : LowObj α) (hc : o.logLik = lowCompute o.tab o.maxSize o.bps) (ops : List (Op α)) :
+    o.run ops = lowSpecRunAll o.tab o.maxSize o.bps ops := by
+  induction ops generalizing o with
+  | nil => rfl
+  | cons op ops ih =>
+    obtain ⟨h1, h2, h3, h4, h5⟩ := LowObj.step_all o hc op
+    simp only [LowObj.run, lowSpecRunAll]
+    rw [h1, ih _ h5, h2, h3, h4]
 
 end Bpp.Hmm
